@@ -12,7 +12,6 @@ import (
 	"net/url"
 	"os"
 	"path/filepath"
-	"regexp"
 	"strconv"
 	"strings"
 
@@ -128,22 +127,133 @@ func SynchronousModeFromInt(i int) (SynchronousMode, error) {
 }
 
 // BreakingPragmas are PRAGMAs that, if executed, would break the database layer.
-var BreakingPragmas = map[string]*regexp.Regexp{
-	"PRAGMA journal_mode":       regexp.MustCompile(`(?i)^\s*PRAGMA\s+(\w+\.)?journal_mode\s*=\s*`),
-	"PRAGMA wal_autocheckpoint": regexp.MustCompile(`(?i)^\s*PRAGMA\s+wal_autocheckpoint\s*=\s*`),
-	"PRAGMA wal_checkpoint":     regexp.MustCompile(`(?i)^\s*PRAGMA\s+(\w+\.)?wal_checkpoint`),
-	"PRAGMA synchronous":        regexp.MustCompile(`(?i)^\s*PRAGMA\s+(\w+\.)?synchronous\s*=\s*`),
-	"PRAGMA query_only":         regexp.MustCompile(`(?i)^\s*PRAGMA\s+(\w+\.)?query_only\s*=\s*`),
+// Setting any of them is disallowed, and wal_checkpoint is disallowed in every form
+// since it acts even without an argument. Reading a setting is allowed.
+var BreakingPragmas = map[string]bool{
+	"journal_mode":       true,
+	"wal_autocheckpoint": true,
+	"wal_checkpoint":     true,
+	"synchronous":        true,
+	"query_only":         true,
 }
 
-// IsBreakingPragma returns true if the given statement is a breaking PRAGMA.
+// IsBreakingPragma returns true if any statement in the given SQL text is a
+// breaking PRAGMA. The text is examined the way SQLite reads it: comments and
+// whitespace are skipped, every statement of a multi-statement text is checked,
+// and names may be quoted and prefixed by a schema name.
 func IsBreakingPragma(stmt string) bool {
-	for _, re := range BreakingPragmas {
-		if re.MatchString(stmt) {
+	toks := pragmaTokens(stmt)
+	for len(toks) > 0 {
+		// Isolate the next statement.
+		end := 0
+		for end < len(toks) && toks[end] != ";" {
+			end++
+		}
+		s := toks[:end]
+		if end < len(toks) {
+			end++
+		}
+		toks = toks[end:]
+
+		if len(s) < 2 || !strings.EqualFold(s[0], "PRAGMA") {
+			continue
+		}
+		name, rest := s[1], s[2:]
+		if len(rest) >= 2 && rest[0] == "." {
+			name, rest = rest[1], rest[2:]
+		}
+		name = strings.ToLower(unquotePragmaName(name))
+		if !BreakingPragmas[name] {
+			continue
+		}
+		if name == "wal_checkpoint" {
+			return true
+		}
+		if len(rest) > 0 && (rest[0] == "=" || rest[0] == "(") {
 			return true
 		}
 	}
 	return false
+}
+
+// unquotePragmaName removes the quoting SQLite accepts around a name.
+func unquotePragmaName(s string) string {
+	if len(s) < 2 {
+		return s
+	}
+	switch q := s[0]; q {
+	case '"', '`', '\'':
+		if s[len(s)-1] == q {
+			return strings.ReplaceAll(s[1:len(s)-1], string([]byte{q, q}), string(q))
+		}
+	case '[':
+		if s[len(s)-1] == ']' {
+			return s[1 : len(s)-1]
+		}
+	}
+	return s
+}
+
+// pragmaTokens splits SQL text into the tokens SQLite would see, dropping
+// whitespace and comments. Quoted names and strings are single tokens,
+// including their quotes. Any other character is a token of its own.
+func pragmaTokens(s string) []string {
+	var toks []string
+	isIdent := func(c byte) bool {
+		return c == '_' || c == '$' || c >= 0x80 || (c >= '0' && c <= '9') ||
+			(c >= 'a' && c <= 'z') || (c >= 'A' && c <= 'Z')
+	}
+	s = strings.TrimPrefix(s, "\xef\xbb\xbf") // SQLite treats a BOM as whitespace.
+	for i := 0; i < len(s); {
+		c := s[i]
+		switch {
+		case c == ' ' || c == '\t' || c == '\n' || c == '\r' || c == '\f':
+			i++
+		case c == '-' && i+1 < len(s) && s[i+1] == '-':
+			for i < len(s) && s[i] != '\n' {
+				i++
+			}
+		case c == '/' && i+1 < len(s) && s[i+1] == '*':
+			end := strings.Index(s[i+2:], "*/")
+			if end < 0 {
+				i = len(s)
+			} else {
+				i += end + 4
+			}
+		case c == '"' || c == '`' || c == '\'' || c == '[':
+			closer := c
+			if c == '[' {
+				closer = ']'
+			}
+			j := i + 1
+			for j < len(s) {
+				if s[j] == closer {
+					if closer != ']' && j+1 < len(s) && s[j+1] == closer {
+						j += 2
+						continue
+					}
+					break
+				}
+				j++
+			}
+			if j < len(s) {
+				j++
+			}
+			toks = append(toks, s[i:j])
+			i = j
+		case isIdent(c):
+			j := i
+			for j < len(s) && isIdent(s[j]) {
+				j++
+			}
+			toks = append(toks, s[i:j])
+			i = j
+		default:
+			toks = append(toks, s[i:i+1])
+			i++
+		}
+	}
+	return toks
 }
 
 // ParseHex parses the given string into a byte slice as per the SQLite specification:
